@@ -359,6 +359,69 @@ example :
     (specRun cfg [.call true 0, .wait 101, .call true 0]).1.st = .closed := by
   decide
 
+/-- **Expiry decides the next recording** (time-based window, any reachable closed state, ANY outcome — success or failure, fast or
+slow): recording a call first prunes the records older than `sliding_window_duration`, and the breaker opens exactly when the
+documented condition holds over the PRUNED window plus the new outcome. Nothing else enters the verdict: not whether the window
+was already "evaluable" before the call, not whether the new outcome itself adds to a rate. So a rate that rose only because
+successes aged out is acted upon at the very next recording, also when that recording is a fast success. -/
+theorem expiry_decides_next_recording (cfg : Cfg) (ops : List Op) (hcb : cfg.countBased = false)
+    (hst : (run cfg ops).circ.st = .closed) (fail : Bool) (dur : Nat) (own : Bool) :
+    let w := (run cfg ops).circ.hist.filter (fun r => decide ((run cfg ops).now - r.t ≤ cfg.windowMs))
+               ++ [({ t := (run cfg ops).now, fail := fail, slow := isSlow cfg dur } : Rec)]
+    ((record cfg (run cfg ops).circ fail dur (run cfg ops).now own).1.st = .opened ↔
+      shouldOpen cfg w.length (countFail w) (countSlow w) = true) := by
+  intro w
+  have hr := record_refines_reachable cfg ops fail dur own
+  have hst' : (record cfg (run cfg ops).circ fail dur (run cfg ops).now own).1.st
+      = (abs (record cfg (run cfg ops).circ fail dur (run cfg ops).now own).1).st := rfl
+  rw [hst', hr]
+  have ho := (opens_exactly_when cfg (abs (run cfg ops).circ) fail (isSlow cfg dur) (run cfg ops).now hst).1
+  have hw : ((abs (run cfg ops).circ).push ⟨(run cfg ops).now, fail, isSlow cfg dur⟩).window cfg (run cfg ops).now = w := by
+    simp [Breaker.window, Breaker.push, hcb, abs, List.filter_append, w]
+  rw [ho]
+  unfold Breaker.tripped
+  simp only [hw]
+
+/-- **Expiry alone can raise the rate, and a SUCCESS trips on it**: let `young` be the recorded outcomes no older than the window
+duration at the instant of the recording. If, counting the success being recorded, the minimum number of calls is there and the
+failures among `young` reach the failure-rate threshold over `young.length + 1` calls, the breaker opens on that success —
+however low the rate was while the records that have aged out were still in the window. -/
+theorem success_trips_on_expired_window (cfg : Cfg) (ops : List Op) (hcb : cfg.countBased = false)
+    (hst : (run cfg ops).circ.st = .closed) (dur : Nat) (own : Bool)
+    (hmin : ((run cfg ops).circ.hist.filter (fun r => decide ((run cfg ops).now - r.t ≤ cfg.windowMs))).length + 1 ≥ cfg.minCalls)
+    (hrate : cfg.frNum * (((run cfg ops).circ.hist.filter (fun r => decide ((run cfg ops).now - r.t ≤ cfg.windowMs))).length + 1)
+      ≤ countFail ((run cfg ops).circ.hist.filter (fun r => decide ((run cfg ops).now - r.t ≤ cfg.windowMs))) * cfg.frDen) :
+    (record cfg (run cfg ops).circ false dur (run cfg ops).now own).1.st = .opened := by
+  have h := expiry_decides_next_recording cfg ops hcb hst false dur own
+  dsimp only at h
+  rw [h]
+  generalize (run cfg ops).circ.hist.filter (fun r => decide ((run cfg ops).now - r.t ≤ cfg.windowMs)) = young at hmin hrate ⊢
+  simp only [shouldOpen, reached, hcb, countFail, List.length_append, List.length_singleton, List.countP_append,
+    List.countP_singleton]
+  simp
+  refine ⟨hmin, Or.inl ?_⟩
+  simpa [countFail, Nat.mul_comm] using hrate
+
+/-- Non-vacuity, THE THRESHOLD REACHED BY EXPIRY ON A SUCCESS (window 100 ticks, minimum 3, threshold 1/2): S S S at t = 0, F F at
+t = 60: closed, the snapshot says 2 failures of 5. At t = 110 the three successes have aged out (110 > 100), the failures have not
+(50): the window of the next recording is F F + the new outcome. A SUCCESS recorded then opens the breaker (2/3 ≥ 1/2) — and so
+does a failure (3/3); the call after it is rejected without an inner call. At t = 100 nothing has expired yet (age 100 is still
+inside): the success leaves it closed with 2 failures of 6. The documented machine says the same. -/
+example :
+    let cfg : Cfg := { countBased := false, windowMs := 100, minCalls := 3, frNum := 1, frDen := 2, waitMs := 36000 }
+    let ok (c : Nat) := [Op.arrive c ⟨0, .ok⟩ 0, .poll c]
+    let ko (c : Nat) := [Op.arrive c ⟨0, .err 1⟩ 0, .poll c]
+    let pre := ok 1 ++ ok 2 ++ ok 3 ++ [.adv 60] ++ ko 4 ++ ko 5
+    (run cfg pre).circ.st = .closed ∧ stats cfg (run cfg pre).circ = (5, 2, 3, 0) ∧
+    (run cfg (pre ++ [.adv 50] ++ ok 6)).circ.st = .opened ∧
+    (run cfg (pre ++ [.adv 50] ++ ko 6)).circ.st = .opened ∧
+    (run cfg (pre ++ [.adv 50] ++ ok 6 ++ ok 7)).log.getLast? = some (110, .result 7 .openCircuit) ∧
+    (run cfg (pre ++ [.adv 40] ++ ok 6)).circ.st = .closed ∧ stats cfg (run cfg (pre ++ [.adv 40] ++ ok 6)).circ = (6, 2, 4, 0) ∧
+    (abs (run cfg (pre ++ [.adv 50])).circ).window cfg 110 = [⟨60, true, false⟩, ⟨60, true, false⟩] ∧
+    (specRun cfg [.call false 0, .call false 0, .call false 0, .wait 60, .call true 0, .call true 0, .wait 50, .call false 0]).1.st = .opened ∧
+    (specRun cfg [.call false 0, .call false 0, .call false 0, .wait 60, .call true 0, .call true 0, .wait 40, .call false 0]).1.st = .closed := by
+  decide
+
 /-- Non-vacuity, HALF-OPEN WITH `permitted = 2` (both conjuncts of `closes_after_permitted`, and `reopens_on_failure`): forced
 open, the wait passes; the first success leaves the breaker half-open with one success counted, the second closes it; a
 failure instead of the second success re-opens it. The documented machine and the full model agree step by step. -/
